@@ -404,6 +404,7 @@ def spec_coxeter(draw, n, shape, dmax, maxword=8):
     return dict(ctor="coxeter_hyperbolic_rep", n=n, shape=[], cox=cox, via=via,
                 style=draw(st.sampled_from(["alpha", "alphanum"])), word=word,
                 automaton=draw(st.booleans()), prior_cartan=draw(st.booleans()),
+                dorder=draw(st.sampled_from([0] + list(range(1, 64)))),
                 extra_words=draw(st.lists(st.lists(st.integers(0, rank - 1), max_size=4),
                                           min_size=1, max_size=3)))
 
@@ -664,6 +665,14 @@ def build_coxeter(spec):
         names = cox_names(rank, "alpha")
         diagram = [(names[i], names[j], int(cox[i, j]))
                    for i in range(rank) for j in range(i + 1, rank)]
+        # the edges of a diagram come in no particular order, nor do the two ends of an edge
+        k = int(spec.get("dorder", 0))
+        if k:
+            diagram = diagram[k % len(diagram):] + diagram[:k % len(diagram)]
+            if k % 2:
+                diagram = diagram[::-1]
+            diagram = [(b, a, m) if (k >> (2 + i)) & 1 else (a, b, m)
+                       for i, (a, b, m) in enumerate(diagram)]
         G = coxeter.CoxeterGroup(diagram=diagram)
     else:
         names = cox_names(rank, spec["style"])
